@@ -10,7 +10,10 @@ evaluated here), vs the Lean Spec, vs the Lean Model):
  (c) literal text with braces, unicode, mixed chunks, Print(sep=, end=), expression arguments;
  (d) Print / Assert / Assume under Module-DSL control flow in posedge / negedge domains with no reset,
      synchronous reset and asynchronous reset: which events emit, which event stops the simulation and
-     with which message.
+     with which message;
+ (e) brace fill characters (`{`, `}`): finding F20, a dedicated stream (the other streams never generate them).
+
+`./check C20 --replay replays/<file>` re-runs a recorded case on the current tree.
 """
 import contextlib
 import io
@@ -302,12 +305,13 @@ LIT_ALPHABET = ["a", "b", " ", "{", "}", "{{", "}}", "{}", ":", "!", "%", "\\", 
 
 
 def rand_accepted_spec(rng, shape):
+    """a random spec `Format` accepts for the shape. Brace fill characters (finding F20) are deliberately
+    not generated here: they have their own stream (`run_brace`), so that the finding cannot drown the
+    mixed-chunk and control-flow streams."""
     for _ in range(50):
-        fa = rng.choice([""] + ALIGNS + [f + a for f in FILLS + ["{", "}", "x", ":", "!"] for a in ALIGNS])
+        fa = rng.choice([""] + ALIGNS + [f + a for f in FILLS + ["x", ":", "!", "[", "%"] for a in ALIGNS])
         spec = fa + rng.choice(SIGNS) + rng.choice(["", "", "#"]) + rng.choice(["", "", "0"]) + rng.choice(WIDTHS + ["3", "8", "20"]) \
             + rng.choice(["", "", "_"]) + rng.choice(TYPES)
-        if ("{" in spec or "}" in spec) and rng.random() < 0.7:
-            continue
         from amaranth.hdl import Format
         try:
             Format._parse_format_spec(spec, shape)
@@ -700,10 +704,6 @@ def flow_job(args):
 # ------------------------------------------------------------------------------------------------
 # judging
 
-def classify_brace(spec_or_chunks):
-    return ["F20"]
-
-
 def judge_text(chk, what, base, impl, orc, model, old, spec):
     """impl / orc: ("ok", text) | ("err", kind); model/old/spec: decoded driver results.
     returns False if a violation / not_shown was recorded"""
@@ -857,7 +857,7 @@ def run_reject(chk, quick):
 
 def run_chunks(chk, quick):
     rng = chk.rng
-    jobs = [(rng.getrandbits(48), 25, 3) for _ in range(32 if quick else 800)]
+    jobs = [(rng.getrandbits(48), 25, 3) for _ in range(32 if quick else 600)]
     with ProcessPoolExecutor(max_workers=min(16, os.cpu_count() or 4)) as ex:
         for cases in ex.map(chunks_job, jobs):
             judge_chunks(chk, cases)
@@ -906,7 +906,7 @@ class _Shape:
 
 def run_flow(chk, quick):
     rng = chk.rng
-    jobs = [(rng.getrandbits(48), 10, 3, 10) for _ in range(64 if quick else 1500)]
+    jobs = [(rng.getrandbits(48), 10, 3, 10) for _ in range(64 if quick else 1200)]
     with ProcessPoolExecutor(max_workers=min(16, os.cpu_count() or 4)) as ex:
         for job in ex.map(flow_job, jobs, chunksize=2):
             judge_flow_job(chk, job)
@@ -1014,12 +1014,20 @@ def run_brace(chk, quick):
         rows.append((spec, v, run_single("print", shape, spec, v), run_single("tb", shape, spec, v), run_single("assert", shape, spec, v)))
         reqs.append(f"(fmt {hx(spec)} 8 u {v})")
     resps = chk.driver.ask(reqs)
+    reported = 0
     for (spec, v, pr, tb, asr), resp in zip(rows, resps):
         parts = resp.split(" ; ")
         d = common.kv(parts[1])
         base = {"stream": "brace-fill", "spec": spec, "shape": [8, False], "value": v, "brace": True}
         orc = oracle(v, spec)
         chk.count(3)
+        bad = [r for r in (pr, asr, tb) if r != orc]
+        chk.hist("brace_fill", "agrees with Python" if not bad else "differs from Python", 1)
+        # every failing case is counted above; only the first few are written out as replays so that
+        # this one finding cannot crowd other violations out of the report
+        if bad and reported >= 6:
+            continue
+        reported += 1 if bad else 0
         judge_text(chk, "Print", base, pr, orc, unhx(d["m"]), unhx(d["o"]), unhx(d["s"]))
         judge_text(chk, "Assert message", base, asr, orc, unhx(d["m"]), unhx(d["o"]), unhx(d["s"]))
         judge_text(chk, "eval_format", base, tb, orc, unhx(d["tb"]), unhx(d["tb"]), unhx(d["s"]))
@@ -1040,7 +1048,7 @@ def run(chk):
                       {"now": src, "proved_against": REGEX_SOURCE})
     import time
     timing = chk.extra.setdefault("timing_s", {})
-    for name, fn in (("brace", run_brace), ("reject", run_reject), ("chunks", run_chunks), ("flow", run_flow), ("grid", run_grid)):
+    for name, fn in (("reject", run_reject), ("chunks", run_chunks), ("flow", run_flow), ("grid", run_grid), ("brace", run_brace)):
         t0 = time.time()
         fn(chk, quick)
         timing[name] = round(time.time() - t0, 1)
